@@ -26,8 +26,18 @@ def probes():
             out.append(("%s_%d" % (v, k), v, val, c))
     return out
 
+def probes_more():
+    """conditions that USE the integer variable as an operand of string operators (offsets, ranges, counts, loop bounds) - the scanned data is "abc": each is true
+    for exactly one value of the variable"""
+    S = 'strings: $a = "bc" '
+    return [("i_at_1", "i", 1, S, "$a at 0 or $a at i"), ("i_at_1b", "i", 1, S, "$a at i or $a at 0"), ("i_in_2", "i", 2, 'strings: $a = "c" ', "$a in (i..i)"),
+            ("i_of_3", "i", 3, 'strings: $a = "a" $b = "b" $c = "c" ', "i of them and not 4 of them and i == 3"), ("i_loop_2", "i", 2, "", "for i j in (1..3) : (j > 1) and i == 2"),
+            ("i_rd_1", "i", 1, "", "uint8(i) == 0x62"), ("imax_cnt", "i_max", 11, S, "#a in (0..i_max) == 1 and i_max == 11")]
+
 PROBES = probes()
-RULES = "\n".join("rule %s { condition: %s }" % (n, c) for (n, v, val, c) in PROBES)
+MORE = probes_more()
+RULES = "\n".join("rule %s { condition: %s }" % (n, c) for (n, v, val, c) in PROBES) + "\n" + "\n".join("rule %s { %scondition: %s }" % (n, st, c) for (n, v, val, st, c) in MORE)
+PROBES = PROBES + [(n, v, val, c) for (n, v, val, st, c) in MORE]
 
 
 def fmt(t, val):
@@ -115,6 +125,10 @@ def cmd_of(op):
     if k == "del": return "sdestroy %d" % op[1]
 
 
+def want_env(env):
+    return {v: [pval for (n, pv, pval, c) in PROBES if pv == v and pval == val] for v, val in env.items()}
+
+
 def observed_env(reply):
     got = {}
     for m in reply["t"]:
@@ -156,7 +170,7 @@ def run_chunk(arg):
                     break
             else:
                 got = observed_env(r)
-                want = {v: [val] for v, val in exp[1].items()}
+                want = want_env(exp[1])
                 if r.get("rc") != 0 or got != want:
                     wrong = sorted(v for v in VARS if got.get(v) != want.get(v))
                     bad = ("C20:value:%s:var=%s" % (o[0], ",".join(wrong)), dict(op=o, expected=want, observed=got, rc=r.get("rc")))
@@ -224,7 +238,7 @@ def compile_phase(ck):
             got = observed_env(rep[-1])
             if observed_env(rep[-2]) != got:
                 ck.violation("C20:value:defc:scanner-differs-from-rules-level", dict(seq=seq, scanner=observed_env(rep[-2]), rules_level=got, commands=cmds)); continue
-            if got != {v: [val] for v, val in env.items()}:
+            if got != want_env(env):
                 ck.violation("C20:value:defc", dict(seq=seq, expected=env, observed=got, commands=cmds))
     ck.sub("compile-time-defines", sequences=n, exhaustive=True)
 
